@@ -185,3 +185,26 @@ CFG['level_note'] += (' obikmermatch concurrency inventory (kmc): CLIAlignSequen
     '(validated: conc.differs + conc.reference-modified on both quick cases of seeds 1-3 on the seeded tree, quiet on the unchanged tree). A read whose alone answer is not reproducible (stat kmc:alone-unstable, never seen) is left out of the comparison. '
     'Not covered: --self under concurrent use, references with qualities (FASTA only), the writer of the command, several reference files.')
 CFG['trusted_base'] += ['harness/c19_match.go (replicates the five lines of CLIAlignSequences that build the index and the worker, to keep a handle on the references; round A runs the real function)']
+
+# ---- short glue pass: the obiconsensus command level (harness/c19_cons.go, Model/Consensus.lean, Lemmas/Consensus.lean, Props/C19Cons.lean)
+CFG['lean_modules'] += ['ObiVerif.Props.C19Cons']
+CFG['rule'] += ('; cons = the real obiconsensus.BuildConsensus(seqs, id, kopt, 0, false, "") on one pack of reads (125 quick / 715 x 8 thorough): 15 pinned lines (0 reads, 1 read, a cycle at every size up to the longest read + 1 -> error, '
+    'chimera forcing 3 -> 5, every read shorter than k, reads of exactly k bases, an empty read with and without the estimate, periodic reads taking the loop through 33..41, --kmer-size 31 rising above 32, ambiguity codes and upper case), '
+    'then clean amplicon of 25-65 bases + 1-4 low-count variants (substitution, ambiguity code, truncation), amplicon + chimera end-of-amplicon ++ start-of-amplicon closing a cycle at small k (kopt 2..9, 29..33 or estimated), '
+    'kopt around the read length (reads of exactly k, k-1, k+1 bases, all shorter), periodic reads (unit 1-3 bases, cycles at every size, up to beyond 32), 0 / 1 read, empty reads, dense graphs on 2-3 letters; a third of the packs shuffled')
+CFG['technique'] += ('; obiconsensus pass: model of BuildConsensus and of the choice of MinionDenoise on top of the graph model, cli_* theorems composed from hasCycle_iff / heaviestH_correct / push_weights; correspondence on outcome, k-mer size, consensus, weight, max occurrence, graph size; '
+    'oracle = brute-force graph on strings (IUPAC readings per window, Kahn elimination, dynamic programming for the heaviest walk from a source) at every size of the sequence of trials from the option or from a naive longest-repeated-substring estimate: '
+    'cons.kmer-size (the annotation is the smallest acyclic size of the trials), cons.not-a-walk / cons.not-heaviest (k <= 32), cons.weight, cons.annotation, cons.fallback (error iff that graph is empty), cons.single, cons.noseq')
+CFG['level_text'] += (' obiconsensus pass (Props/C19Cons.lean, all proved, all inputs): consensus_loop_terminates (the k-mer size loop of BuildConsensus, which has no bound in the code, ends for every pack and every starting size within maxLen + 2 - k0 trials at a size k0 <= k <= max(k0, longest read + 1), '
+    'k being the smallest size of the trials k0, k0+1, ... whose graph has no directed cycle: at longest read + 1 Push ignores every read and the empty graph is acyclic), cli_consensus_exact (>= 2 reads, --low-coverage 0: BuildConsensus = LongestConsensus of the graph of ALL the reads, each pushed once with its count, '
+    'at that k; annotations kmer_size = k, weight = sum of the counts, kmer_max_occur = MaxWeight, graph sizes = Len; the empty graph is the error "graph is empty" i.e. the fall-back of the caller), cli_consensus_heaviest_partial (1 <= k <= 32, counts >= 1: the graph has the weights of push_weights, the answer is the decoding of a walk from a node without predecessor that no such walk outweighs), '
+    'consensus_above_32_counterexample (evaluated: --kmer-size 33 returns a + the last 32 bases of the read instead of the read), cli_denoise_vertex (MinionDenoise writes a consensus iff the vertex has more than 4 neighbours and BuildConsensus(neighbours ++ [vertex]) succeeded; otherwise the sequence of the vertex flagged false, weight 1).')
+CFG['level_note'] += (' obiconsensus glue (short pass; supersedes the "read but NOT covered" list above for BuildConsensus): (1) 0 reads -> error, 1 read -> copy flagged false: modelled + tied; (2) kmer_size < 0 -> estimate = 1 + longest substring occurring twice in one read, max over the reads (obisuffix on each read alone): modelled BY ITS SPECIFICATION (lrs), tied (33 quick cases) and checked against a naive oracle, the suffix sort itself is not transcribed; '
+    'an EMPTY read makes slices.Max panic (stat cons:empty-read-estimate-panic; a record without base inside a pack: outside the contract, modelled as panic); (3) the loop MakeDeBruijnGraph(k) + Push all + HasCycle -> k++: modelled + PROVED to end (consensus_loop_terminates) + tied (trials 1 / 2-3 / >= 4 in the statistics); no upper bound in the code: it does go beyond 32 (periodic reads, a long chimera, or simply --kmer-size 40), '
+    'where the uint64 word holds the last 32 bases, prevc/g/t = 0, Heads() is wrong and the consensus starts with k-32 spurious a - model = code there (tied), the heaviest-walk oracle is switched off (stat cons:k>32-consensus-not-a-heaviest-walk) and the theorem is _partial; PROPOSED FINDING (outside the k = 2..31 of the property): sig cons.k-above-32; '
+    '(4) LongestConsensus(id, min_cov): min_cov = 0 only here (--low-coverage > 0 is the gc operation of the kernel; its pass-through from CLILowCoverage() is read, not tied); (5) annotations obiconsensus_consensus / _weight / _seq_length / _kmer_size / _kmer_max_occur / _filtered_graph_size / _full_graph_size (the two sizes are the same Len: nothing is filtered): modelled + tied; '
+    '(6) --save-graph (fasta of the pack, Gml): not covered; (7) MinionDenoise: the choice degree > 4 / fall-back on error modelled + proved (cli_denoise_vertex), NOT tied; CLIOBIMinion (Load, SeqBySamples by the --sample attribute, BuildDiffSeqGraph = C13 kernels, --cluster, --unique / --no-singleton = obiuniq, the writer) and the option parser of obiconsensus: read, not modelled, not tied '
+    '(a regression grouping by the wrong attribute is not seen). Observation: BuildConsensus pushes every read with its TOTAL Count(), not its count in the sample being denoised.')
+CFG['modelled'] += '; obiconsensus pass: pkg/obitools/obiconsensus obiconsensus.go BuildConsensus (without --save-graph; the estimate by its specification) and the per-vertex choice of MinionDenoise'
+CFG['assumptions'] += ['obiconsensus: --kmer-size >= 1 or negative (0 not exercised); --low-coverage 0; path theorems for a final k <= 32; no read without base when the size is estimated']
+CFG['trusted_base'] += ['harness/c19_cons.go (string-level brute-force graph, Kahn, heaviest-walk DP, naive longest repeated substring)']
